@@ -1,0 +1,20 @@
+//go:build verif
+
+// Contracts for the exovc verifier (/verif). Comment-only: with the tag off this file is not part
+// of the package, with the tag on it declares nothing.
+package types
+
+// C17 (commissions, outstanding rewards and staker rewards are separate books): every key builder puts the prefix of
+// its OWN collection in front of the length-prefixed address.
+//@ func GetValidatorAccumulatedCommissionKey
+//@   flag pure=MustLengthPrefix,Bytes
+//@   ensures[C17.k.commission] defined(res_MustLengthPrefix_0) && r0 == cat(g("x/feedistribution/types.ValidatorAccumulatedCommissionPrefix"), res_MustLengthPrefix_0)
+//@ func GetValidatorCurrentRewardsKey
+//@   flag pure=MustLengthPrefix,Bytes
+//@   ensures[C17.k.current] defined(res_MustLengthPrefix_0) && r0 == cat(g("x/feedistribution/types.ValidatorCurrentRewardsPrefix"), res_MustLengthPrefix_0)
+//@ func GetValidatorOutstandingRewardsKey
+//@   flag pure=MustLengthPrefix,Bytes
+//@   ensures[C17.k.outstanding] defined(res_MustLengthPrefix_0) && r0 == cat(g("x/feedistribution/types.ValidatorOutstandingRewardsPrefix"), res_MustLengthPrefix_0)
+//@ func GetStakerOutstandingRewardsKey
+//@   flag pure=MustLengthPrefix
+//@   ensures[C17.k.staker] defined(res_MustLengthPrefix_0) && r0 == cat(g("x/feedistribution/types.StakerOutstandingRewardsPrefix"), res_MustLengthPrefix_0)
